@@ -19,6 +19,10 @@ def run(ctx):
     ctx.cov["binding_selftest"]["switch_NotifCap_0_gives_counterexample"] = r0.violated
     if not r0.violated:
         raise vlib.NoVerdict("vacuity guard failed: NotifCap=0 does not violate Delivered")
+    r1 = ctx.tlc("ProposeWaitMC", ctx.cfg("ProposeWait_mc.cfg", {"RecycleChannels": "TRUE"}), timeout=600, name="ProposeWait-recycle", count=False)
+    ctx.cov["binding_selftest"]["switch_RecycleChannels_TRUE_gives_counterexample"] = r1.violated
+    if not r1.violated:
+        raise vlib.NoVerdict("vacuity guard failed: recycled, undrained channels do not violate Truthful")
     trace = ctx.path("propose.ndjson")
     rounds = 4 if quick else 40
     ctx.run([prop, "run", trace, str(ctx.seed), str(rounds)], timeout=3000)
